@@ -240,7 +240,7 @@ theorem checkOnce_signal (p : Prog) (src : Src) (ts : TS)
   | some m =>
     simp only []
     cases hce : (cleanupPhase ((bodyOf p).run src { ts with ctxCount := 0 }).ts).err with
-    | some e => cases e <;> simp [Err.isInvalid]
+    | some e => cases e <;> simp [Err.isInvalid, Err.nest]
     | none =>
       simp only []
       cases hr : ((bodyOf p).run src { ts with ctxCount := 0 }).res with
